@@ -15,7 +15,7 @@ PROPS = {
                       "arrayvec::ArrayString (new/push/as_str), constant_time_eq{,_32} (= byte equality; constant TIME is out "
                       "of scope), <[T;N] as TryFrom<&[T]>>::try_from, fmt::Formatter::write_str / debug_tuple / DebugTuple, "
                       "vstd's str model (as_bytes = UTF-8 encoding)",
-        "units": {"quick": [v("hashconv")], "thorough": [k("from_hex"), s("C14")]},
+        "units": {"quick": [v("hashconv"), g("hash_serde_derive")], "thorough": [k("from_hex"), s("C14")]},
         "explanation": "Verus proves, for all inputs, postconditions copied from the property text for the mechanically "
                        "extracted bodies of Hash::{as_bytes, from_bytes, as_slice, from_slice, to_hex, from_hex (with its "
                        "nested hex_val)}, From<[u8;32]> for Hash, From<Hash> for [u8;32], FromStr::from_str, the three "
